@@ -724,6 +724,109 @@ theorem C12_gen_skel_sort_terms : ObjFilter.skel_LinTerms_sort_terms = [
 theorem C12_gen_skel_SetObjNames : ObjFilter.skel_SetObjNames = [
     "if GetModel().num_objs() { decl num_c := GetModel().num_cons() ; decl o1 := (GetEnv().objno_used() - 1) ; decl o2 := (o1 + 1) ; if GetEnv().multiobj() { store o1 := 0 ; store o2 := GetModel().num_objs() } ; decl names_o := vector() ; for (decl io := (num_c + o1) ; (io < (num_c + o2)) ; ++(io)) { if (npco.number_read() > io) { call names_o.push_back(npco.name(io, default).operator basic_string()) } else { call names_o.push_back(operator+(operator+(\"_sobj[\", to_string(((io - num_c) + 1))), ']')) } } ; call GetModel().SetObjNames(vector(move(names_o))) }"] := rfl
 
+/-! ### Round 7: `LinTerms::sort_terms` translated (vector/map loops as folds) and proved equal to `sortTerms` -/
+
+/-- a model term with its variable index as a C++ `int` -/
+def castT (t : Nat × Int) : Int × Int := ((t.1 : Int), t.2)
+
+theorem mapAddTo_cast (w : Nat) (d : Int) : ∀ m : List (Nat × Int),
+    ObjFilter.mapAddTo (m.map castT) (w : Int) d = (addTo m w d).map castT := by
+  intro m
+  induction m with
+  | nil => simp [ObjFilter.mapAddTo, addTo, castT]
+  | cons t m ih =>
+    obtain ⟨x, y⟩ := t
+    simp only [List.map_cons, castT, ObjFilter.mapAddTo, addTo]
+    by_cases h1 : w < x
+    · have : (w : Int) < (x : Int) := by omega
+      simp [h1, this, castT]
+    · have h1' : ¬ ((w : Int) < (x : Int)) := by omega
+      by_cases h2 : w = x
+      · subst h2; simp [castT]
+      · have h2' : ¬ ((w : Int) = (x : Int)) := by omega
+        simp only [h1, h1', h2, h2', if_false, List.map_cons, castT]
+        rw [← ih]
+
+theorem nz_iff (d : Int) : (cne (0 : Int) (ObjFilter.dabs d) ≠ 0) ↔ d ≠ 0 := by
+  simp only [cne, ObjFilter.dabs]
+  by_cases h : d < 0 <;> simp [h] <;> omega
+
+
+theorem loop1 : ∀ (l m : List (Nat × Int)) (c v : List Int),
+    (List.zip (l.map (·.2)) (l.map (fun t => (t.1 : Int)))).foldl
+      (fun (s : ObjFilter.LinTerms_sort_terms.St) (it : Int × Int) =>
+        let s := if (cne (0 : Int) (ObjFilter.dabs it.1)) ≠ 0 then (let s := { s with var_coef_map := ObjFilter.mapAddTo s.var_coef_map it.2 it.1 }; s) else (s); s)
+      ⟨c, v, m.map castT⟩ = ⟨c, v, (accumulate m l).map castT⟩ := by
+  intro l
+  induction l with
+  | nil => intro m c v; simp [accumulate]
+  | cons t l ih =>
+    intro m c v
+    obtain ⟨w, d⟩ := t
+    simp only [List.map_cons, List.zip_cons_cons, List.foldl_cons, accumulate]
+    by_cases hd : d ≠ 0
+    · have h1 : cne (0 : Int) (ObjFilter.dabs d) ≠ 0 := (nz_iff d).mpr hd
+      have e : (if (w, d).2 ≠ 0 then addTo m (w, d).1 (w, d).2 else m) = addTo m w d := if_pos hd
+      rw [e]
+      simp only [h1, if_true, ne_eq, not_false_eq_true, mapAddTo_cast]
+      exact ih (addTo m w d) c v
+    · have h1 : ¬ (cne (0 : Int) (ObjFilter.dabs d) ≠ 0) := fun h => hd ((nz_iff d).mp h)
+      have e : (if (w, d).2 ≠ 0 then addTo m (w, d).1 (w, d).2 else m) = m := if_neg hd
+      rw [e]
+      have h1' : cne (0 : Int) (ObjFilter.dabs d) = 0 := by simpa using h1
+      simp only [h1', ne_eq, not_true_eq_false, if_false]
+      exact ih m c v
+
+theorem loop2 : ∀ (mm : List (Nat × Int)) (c v : List Int) (M : List (Int × Int)),
+    (mm.map castT).foldl
+      (fun (s : ObjFilter.LinTerms_sort_terms.St) (vc : Int × Int) =>
+        let s := if (cne (0 : Int) (ObjFilter.dabs vc.2)) ≠ 0 then (let s := { s with coefs_ := s.coefs_ ++ [vc.2] }; let s := { s with vars_ := s.vars_ ++ [vc.1] }; s) else (s); s)
+      ⟨c, v, M⟩ =
+      ⟨c ++ (mm.filter (fun t => t.2 ≠ 0)).map (·.2), v ++ (mm.filter (fun t => t.2 ≠ 0)).map (fun t => (t.1 : Int)), M⟩ := by
+  intro mm
+  induction mm with
+  | nil => intro c v M; simp
+  | cons t mm ih =>
+    intro c v M
+    obtain ⟨w, d⟩ := t
+    simp only [List.map_cons, List.foldl_cons, castT, List.filter_cons]
+    by_cases hd : d ≠ 0
+    · have h1 : cne (0 : Int) (ObjFilter.dabs d) ≠ 0 := (nz_iff d).mpr hd
+      simp only [h1, if_true, ne_eq, not_false_eq_true]
+      have := ih (c ++ [d]) (v ++ [(w : Int)]) M
+      simp only [castT] at this
+      rw [this]
+      simp [hd]
+    · have h1' : cne (0 : Int) (ObjFilter.dabs d) = 0 := by
+        have : ¬ (cne (0 : Int) (ObjFilter.dabs d) ≠ 0) := fun h => hd ((nz_iff d).mp h)
+        simpa using this
+      have hd0 : d = 0 := by simpa using hd
+      simp only [h1', ne_eq, not_true_eq_false, if_false]
+      have := ih c v M
+      simp only [castT] at this
+      rw [this]
+      simp [hd0]
+
+/-- **`LinTerms::sort_terms` generated from src/std_constr.cc equals the model's `sortTerms`** for every term list (exact
+    arithmetic; the two vectors are the coefficient and variable columns of the list, i.e. of equal length - the class
+    invariant of `LinTerms`; `force_sort = false`, the default used by `Convert(MutObjective)`) -/
+theorem C12_gen_sort_terms (l : List (Nat × Int)) :
+    ObjFilter.LinTerms_sort_terms 0 (l.map (·.2)) (l.map (fun t => (t.1 : Int))) =
+      ((sortTerms l).map (·.2), (sortTerms l).map (fun t => (t.1 : Int))) := by
+  have h1 := loop1 l [] (l.map (·.2)) (l.map (fun t => (t.1 : Int)))
+  simp only [List.map_nil] at h1
+  simp only [ObjFilter.LinTerms_sort_terms, h1, sortTerms]
+  by_cases hlt : (accumulate [] l).length < l.length
+  · have hc : ObjFilter.lor 0 (clt (((accumulate [] l).map castT).length : Int) ((l.map (·.2)).length : Int)) ≠ 0 := by
+      simp [ObjFilter.lor, clt]; omega
+    simp only [hc, if_true, ne_eq, not_false_eq_true, hlt]
+    have h2 := loop2 (accumulate [] l) [] [] ((accumulate [] l).map castT)
+    simp only [h2, List.nil_append]
+  · have hc : ObjFilter.lor 0 (clt (((accumulate [] l).map castT).length : Int) ((l.map (·.2)).length : Int)) = 0 := by
+      simp [ObjFilter.lor, clt]; omega
+    simp only [hc, ne_eq, not_true_eq_false, if_false, hlt]
+
+
 end GenTie
 
 /-! ## Statement audit (round 4): the error branches and the state invariant behind `List.modify` -/
